@@ -1,4 +1,4 @@
-import EupsModel.Model.Cond
+import EupsModel.Model.TableParse
 /-! Model of the glue between the command line and `Table.actions(flavor, setupType)`:
 `Eups.__init__`'s normalisation of its `setupType` argument (`Eups.py`: `None`/`""` → no type; a string with white
 space or commas is split at runs of them, `re.split(r"[\s,]+", …)`; any other string is one type; a list is taken as
@@ -55,5 +55,33 @@ def setupArg (opt : Str) : Arg := .str opt
 /-- `Table.dependencies`: `setupType = [t for t in setupType if t != "exact"]` unless it follows exact versions -/
 def depTypes (followExact : Bool) (types : List Str) : List Str :=
   if followExact then types else types.filter (· != sExact)
+
+/-! ## sequences on one live `Eups` object
+
+`Eups.setupType` is one list shared by every later evaluation of a table through the same object
+(`Table.dependencies(Eups, …)`, `table.actions(flavor, setupType=self.setupType)` in `Eups.setup`).
+`Table.dependencies` builds a *new* list when it drops `exact`; the list of the object is never changed. -/
+
+/-- a step: a dependency walk over the table (`followExact` given or `None` = `Eups.exact_version`), or the
+evaluation of the table as `Eups.setup` does it -/
+inductive Step | deps (fe : Option Bool) | acts
+  deriving DecidableEq, Repr
+
+structure StepOut where
+  state : List Str                                   -- `Eups.setupType` after the step
+  asked : Option (List Str)                          -- deps: the types `Table.actions` was called with
+  actions : Option (Res (List TableParse.Action))    -- acts: the action list
+  deriving Repr
+
+/-- one step from the state `types`: its observables and the state after it -/
+def stepOut (exactVersion : Bool) (pdir : Option Str) (flavor text : Str) (types : List Str) : Step → StepOut × List Str
+  | .deps fe => (⟨types, some (depTypes (fe.getD exactVersion) types), none⟩, types)
+  | .acts => (⟨types, none, some (TableParse.tableActions TableParse.repaired pdir ⟨flavor, types⟩ text)⟩, types)
+
+def runSeq (exactVersion : Bool) (pdir : Option Str) (flavor text : Str) : List Str → List Step → List StepOut
+  | _, [] => []
+  | ts, s :: r =>
+    let o := stepOut exactVersion pdir flavor text ts s
+    o.1 :: runSeq exactVersion pdir flavor text o.2 r
 
 end EupsModel.SetupType
